@@ -1013,7 +1013,7 @@ func genC14(tier string, seed uint64, n int, e *Emitter) {
 		}
 	}
 	if n == 0 {
-		n = 800
+		n = 700
 		if tier == "thorough" {
 			n = 30000
 		}
@@ -1026,14 +1026,18 @@ func genC14(tier string, seed uint64, n int, e *Emitter) {
 	idx := uint64(0)
 	// corpus: every document under a few policies, all forms, parallel, and the root-skip probe
 	for _, d := range corpus {
-		for k := 0; k < 6; k++ {
+		nv, np := 3, []int{1, 3}
+		if tier == "thorough" {
+			nv, np = 6, []int{1, 2, 3, 4}
+		}
+		for k := 0; k < nv; k++ {
 			idx++
 			r := NewRng(seed, idx)
 			c14VisitCase(r, tb, d, d.doc, []int{0, 5, 30, 5, 30, 5}[k], false, e)
 		}
 		idx++
 		c14VisitCase(NewRng(seed, idx), tb, d, d.doc, 5, true, e)
-		for k := 1; k <= 4; k++ {
+		for _, k := range np {
 			idx++
 			c14ParCase(NewRng(seed, idx), tb, d, d.doc, []int{0, 5, 30, 5, 30}[k], k, e)
 		}
